@@ -89,8 +89,8 @@ def ref_station(s, allow_mask=True):
 
 def ref_parse(s):
     """-> dict(type, net, octets, ip) ; raises Invalid / Ambiguous"""
-    if not s.isascii():
-        raise Ambiguous()
+    if any(not (33 <= ord(c) <= 126) for c in s):
+        raise Invalid("a character that no notation uses (white space, line end, control, not ASCII)")
     route = None
     if "@" in s:
         s, route = s.split("@", 1)
@@ -258,6 +258,49 @@ def check_pools(run, pools):
             return
 
 
+def check_route_aware(run):
+    from bacpypes.settings import settings
+    texts = ["5", "5@6", "5@7", "5@1.2.3.4", "6", "6@6", "1:5", "1:5@6", "1:5@9", "2:5@6", "1:*", "1:*@6", "1:*@7", "*:*", "*:*@6",
+             "1.2.3.4", "1.2.3.4@1.2.3.5", "1.2.3.4:47809@6", "0x0102", "0x0102@6", "0x0102@7"]
+    old = settings.route_aware
+    settings.route_aware = True
+    try:
+        objs = []
+        for t in texts:
+            try:
+                objs.append((t, Address(t)))
+            except Exception as err:
+                run.violation("routed-notation-refused-in-route-aware-mode/" + type(err).__name__, {"text": t})
+        for (ta, a), (tb, b) in itertools.product(objs, repeat=2):
+            run.count("route_aware_pairs_compared")
+            eq = (a == b)
+            if eq != (b == a):
+                run.violation("equality-not-symmetric/route-aware", {"a": ta, "b": tb})
+                return
+            if eq == (a != b):
+                run.violation("eq-and-ne-inconsistent/route-aware", {"a": ta, "b": tb})
+                return
+            if eq and (hash(a) != hash(b) or {a: 1}.get(b) != 1):
+                run.violation("equal-addresses-hash-differently/route-aware", {"a": ta, "b": tb})
+                return
+            if eq and ta.split("@")[0] != tb.split("@")[0]:
+                run.violation("different-addresses-compare-equal/route-aware", {"a": ta, "b": tb})
+                return
+            if not eq and ta.split("@")[0] == tb.split("@")[0] and ("@" not in ta or "@" not in tb or ta == tb):
+                run.violation("equivalent-spellings-unequal/route-aware", {"a": ta, "b": tb})
+                return
+        for (ta, a), (tb, b), (tc, c) in itertools.product(objs, repeat=3):
+            if (a == b) and (b == c) and not (a == c):
+                # mechanism: an address without a route equals the same address with any route
+                if "@" not in tb and "@" in ta and "@" in tc:
+                    run.violation("route-aware-equality-takes-a-missing-route-for-any-route", {"a": ta, "b": tb, "c": tc})
+                else:
+                    run.violation("equality-not-transitive/route-aware", {"a": ta, "b": tb, "c": tc})
+                break
+    finally:
+        settings.route_aware = old
+
+
 def station_pool(v):
     h = "%02x" % v
     return [("s", str(v)), ("i", v), ("s", "0x" + h), ("s", "X'%s'" % h.upper()), ("b", bytes([v])), ("LS", v),
@@ -284,7 +327,7 @@ def ip_pool(ip, port, net=None):
     return pool
 
 
-ALPHABET = "0123456789*:./xX'abcdefABCDEF@ -"
+ALPHABET = "0123456789*:./xX'abcdefABCDEF@ -\n\t\u0663\uff15"       # (line ends and digits of other scripts are not part of any notation)
 
 
 def main():
@@ -381,6 +424,16 @@ def main():
                 if denotes(a) != {"type": t, "net": net, "octets": o}:
                     run.violation("octet-string-address-differs", {"spec": repr(spec), "got": repr(denotes(a))})
                     continue
+                if ln == 6 and getattr(a, "addrTuple", None) is not None:
+                    # six octets are an IP address and a port: what the address offers as socket tuple / port must be those
+                    want_t = (".".join(str(x) for x in o[:4]), struct.unpack(">H", o[4:])[0])
+                    run.count("ip_fields_of_raw_octets_checked")
+                    got_t = (tuple(a.addrTuple), getattr(a, "addrPort", want_t[1]))
+                    bt = getattr(a, "addrBroadcastTuple", None)
+                    if got_t != (want_t, want_t[1]) or (bt is not None and tuple(bt)[1] != want_t[1]):
+                        run.violation("ip-derived-fields-differ/raw-octets", {"spec": repr(spec), "got": repr(got_t), "want": repr(want_t),
+                                                                              "broadcast_tuple": repr(bt)})
+                        continue
                 check_roundtrip(run, a, {"spec": repr(spec)})
 
     # 4. pools of equivalent spellings
@@ -411,6 +464,9 @@ def main():
     run.extra["spellings"] = sum(len(p) for p in pools)
     check_pools(run, pools)
 
+    # 4b. the same relations with settings.route_aware switched on (what routers and the route-aware application use)
+    check_route_aware(run)
+
     # 5. grammar-mutated strings
     seeds = ["5", "255", "1:5", "65534:255", "1:*", "*", "*:*", "1.2.3.4", "1.2.3.4:47809", "10.20.30.40/24", "1.2.3.4/8:1",
              "7:1.2.3.4", "7:1.2.3.4:5", "0x01", "0x0102", "X'0a0B'", "3:0x0102", "3:X'0102'", "01:02:03:04:05:06", "5@6",
@@ -418,6 +474,9 @@ def main():
     for s in seeds:
         run.case(s)
         check_string(run, s)
+        for tail in ("\n", " ", "\r\n", "\u0663"):
+            run.case(s + tail)
+            check_string(run, s + tail)
     n = 600000 if thorough else 60000
     for _ in range(n):
         s = rng.choice(seeds)
@@ -434,7 +493,8 @@ def main():
                 s = s[:pos] + rng.choice(["*", ":", "256", "65535", "65536", "0x", "/33", ":70000", "@"]) + s[pos:]
         run.case(s, sample={"mutant": s}, sample_key=("mut", len(run.sample_keys) % 6) if len(run.sample_keys) < 30 else None)
         check_string(run, s)
-    run.finish(require=("accepted", "refused", "pairs_compared", "print_parse_roundtrips", "ip_forms_checked_against_ipaddress"))
+    run.finish(require=("accepted", "refused", "pairs_compared", "print_parse_roundtrips", "ip_forms_checked_against_ipaddress",
+                        "route_aware_pairs_compared"))
 
 
 def replay(run):
